@@ -1,7 +1,6 @@
 package props
 
 import (
-	"bytes"
 	"encoding/json"
 	"fmt"
 	"reflect"
@@ -21,6 +20,18 @@ import (
 type StabilityCase struct {
 	E        E2ECase
 	Scribble bool
+	// FailAt > 0: the handler refuses its FailAt-th transaction with a temporary error, after it has looked at
+	// it (and scribbled over it); whatever the library does next, nobody may be handed the scribbled copy
+	FailAt int `json:",omitempty"`
+}
+
+// scribbleCol overwrites one delivered column in place: its bytes, its name and its absent flag.
+func scribbleCol(cd *gobinlog.ColumnData) {
+	for i := range cd.Data {
+		cd.Data[i] = 0xEE
+	}
+	cd.Filed = "scribbled:" + cd.Filed
+	cd.IsEmpty = !cd.IsEmpty
 }
 
 func cloneTx(t *gobinlog.Transaction) *gobinlog.Transaction {
@@ -101,6 +112,7 @@ func checkC08(c *StabilityCase) error {
 	defer ss.close()
 	var retained, snaps []*gobinlog.Transaction
 	var herr error
+	calls := 0
 	handler := func(tx *gobinlog.Transaction, st *attemptState) error {
 		k := len(retained)
 		// (1) what arrives now still equals the model, whatever was done to earlier deliveries
@@ -116,22 +128,21 @@ func checkC08(c *StabilityCase) error {
 			sc := cloneTx(tx)
 			_ = sc
 			eachData(tx, func(ev, img, row, col int, cd *gobinlog.ColumnData) {
-				if cd.Data == nil {
-					return
-				}
-				var want []byte
+				var want *gobinlog.ColumnData
 				if img == 0 {
-					want = snap.Events[ev].RowIdentifies[row].Columns[col].Data
+					want = snap.Events[ev].RowIdentifies[row].Columns[col]
 				} else {
-					want = snap.Events[ev].RowValues[row].Columns[col].Data
+					want = snap.Events[ev].RowValues[row].Columns[col]
 				}
-				if herr == nil && !bytes.Equal(cd.Data, want) {
-					herr = fmt.Errorf("tx %d event %d row %d col %d: value changed from %q to %q when other values of the delivery were overwritten", k, ev, row, col, clipB(want), clipB(cd.Data))
+				if herr == nil && !reflect.DeepEqual(cd, want) {
+					herr = fmt.Errorf("tx %d event %d row %d col %d: column changed from %+v to %+v when other columns of the delivery were overwritten", k, ev, row, col, *want, *cd)
 				}
-				for i := range cd.Data {
-					cd.Data[i] = 0xEE
-				}
+				scribbleCol(cd)
 			})
+		}
+		calls++
+		if c.FailAt > 0 && calls == c.FailAt {
+			return tempErr{}
 		}
 		retained = append(retained, tx)
 		snaps = append(snaps, snap)
@@ -148,7 +159,11 @@ func checkC08(c *StabilityCase) error {
 	if herr != nil {
 		return herr
 	}
-	if len(retained) != len(exp) {
+	if c.FailAt > 0 && c.FailAt <= len(exp) {
+		if len(retained) != c.FailAt-1 {
+			return fmt.Errorf("%d transactions accepted, the handler refused number %d [stream err %v]", len(retained), c.FailAt, st.streamErr)
+		}
+	} else if len(retained) != len(exp) {
 		return fmt.Errorf("%d transactions delivered, want %d [stream err %v]", len(retained), len(exp), st.streamErr)
 	}
 	verify := func(when string) error {
@@ -156,11 +171,7 @@ func checkC08(c *StabilityCase) error {
 			want := snaps[k]
 			if c.Scribble {
 				want = cloneTx(snaps[k])
-				eachData(want, func(_, _, _, _ int, cd *gobinlog.ColumnData) {
-					for i := range cd.Data {
-						cd.Data[i] = 0xEE
-					}
-				})
+				eachData(want, func(_, _, _, _ int, cd *gobinlog.ColumnData) { scribbleCol(cd) })
 			}
 			if !reflect.DeepEqual(tx, want) {
 				a, _ := json.Marshal(want)
@@ -241,6 +252,9 @@ func TestC08(t *testing.T) {
 		}
 		c := &StabilityCase{E: E2ECase{H: gen.History(rt, ho)}, Scribble: rapid.Bool().Draw(rt, "scribble")}
 		c.E.Pacing = rapid.IntRange(0, 1).Draw(rt, "pacing")
+		if rapid.IntRange(0, 5).Draw(rt, "handler_refuses") == 0 {
+			c.FailAt = rapid.IntRange(1, 4).Draw(rt, "fail_at")
+		}
 		if rapid.IntRange(0, 2).Draw(rt, "chop") == 0 {
 			c.E.Chop = rapid.Uint32Range(1, 1<<32-1).Draw(rt, "chop_seed")
 		}
